@@ -67,7 +67,7 @@ pub fn verify_original(original: Unimock, mode: VerifyMode) -> VerifyObs {
             Ok(()) => VerifyObs::Silent,
             Err(m) => VerifyObs::Panic(m),
         },
-        VerifyMode::Verify => match catch(move || original.verify()) {
+        VerifyMode::Verify | VerifyMode::ExplicitVerify => match catch(move || original.verify()) {
             Ok(()) => VerifyObs::Silent,
             Err(m) => VerifyObs::Panic(m),
         },
@@ -104,6 +104,7 @@ pub fn run_real(scn: &Scenario) -> RealRun {
             }
         }
     };
+    let original = if scn.verify == VerifyMode::ExplicitVerify { original.no_verify_in_drop() } else { original };
     let mut insts: Vec<Unimock> = vec![original];
     for _ in 0..scn.clones {
         let c = insts[0].clone();
@@ -185,7 +186,7 @@ pub fn model_line_key(scn_patterns: &BTreeMap<u16, MatcherKind>, line: &Line) ->
             index,
             ..
         } => match scn_patterns.get(pat_id) {
-            Some(MatcherKind::FuncDebug) | Some(MatcherKind::FuncUserPanic) => {
+            Some(MatcherKind::FuncDebug) | Some(MatcherKind::FuncUserPanic) | Some(MatcherKind::Macro(_)) => {
                 LineKey::DebugPattern(*pat_id)
             }
             _ => LineKey::IndexPattern(FACTS[*method as usize].path.to_string(), *index),
